@@ -1,8 +1,10 @@
 package c16
 
 import (
+	"context"
 	"errors"
 	"fmt"
+	"runtime"
 	"sort"
 	"strings"
 	"time"
@@ -24,6 +26,54 @@ type loadRec struct {
 	tEnd       time.Duration
 	val        int
 	err        error
+	panicked   bool // the loader ended by panicking (nothing loaded)
+}
+
+// loadSpec is what the loader of one Take does.
+type loadSpec struct {
+	errKind   int // 0 succeeds; 1 a fresh error; 2 a bare sentinel (context.DeadlineExceeded); 3 a wrapped sentinel (context.Canceled); 4 an error of a struct type; 5 the package's own collection.ErrArgument
+	panicKind int // 0 none; 1 a string; 2 an error value; 3 a runtime error (write to a nil map); 4 a struct value
+	yields    int
+	sleep     time.Duration
+	nest      *nestSpec // an operation the loader itself issues on a cache while it runs (dependent lookups, layered caches)
+}
+
+type nestSpec struct {
+	cache int // index of the cache (several caches) the nested operation goes to
+	kind  int // 0 get 1 set 2 del 3 take (plain loader)
+	key   int
+}
+
+type loadFailure struct{ n int64 }
+
+func (e loadFailure) Error() string { return fmt.Sprintf("load-failure-%d", e.n) }
+
+type loadPanic struct{ n int64 }
+
+var errLoadPanic = errors.New("load-panic-error")
+
+func (sp loadSpec) String() string {
+	s := fmt.Sprintf("{err:%d panic:%d yields:%d sleep:%v", sp.errKind, sp.panicKind, sp.yields, sp.sleep)
+	if sp.nest != nil {
+		s += fmt.Sprintf(" nested:%+v", *sp.nest)
+	}
+	return s + "}"
+}
+
+// drawLoad draws the behaviour of a loader; the zero draws give a loader that returns a value at once.
+func drawLoad(t *simrt.Tape, nKeys, nCaches int) loadSpec {
+	var sp loadSpec
+	if t.Chance(1, 5) {
+		if x := t.Intn(9); x < 5 {
+			sp.errKind = x + 1
+		} else {
+			sp.panicKind = x - 4
+		}
+	}
+	if t.Chance(1, 6) {
+		sp.nest = &nestSpec{kind: t.Intn(4), key: t.Intn(nKeys), cache: t.Intn(nCaches)}
+	}
+	return sp
 }
 
 type takeRec struct {
@@ -38,6 +88,9 @@ type takeRec struct {
 	val     int
 	err     error
 	loads   []*loadRec
+	// the call ended by a panic that one of the harness' loaders raised (its own loader: the
+	// panic came through; another Take's loader: the shared call passed it on)
+	panicked bool
 }
 
 // cacheShared is what the caches of one run have in common: one logical clock
@@ -45,6 +98,84 @@ type takeRec struct {
 type cacheShared struct {
 	clk     int64
 	nextVal int
+	// keyMode: how key numbers are spelt (0 "k<n>"; 1 the empty string and near-collisions; 2 long / non-ASCII)
+	keyMode int
+	// payload: 0 every value is an int; 1 the dynamic type of a value varies (int, string, slice and map
+	// - not comparable -, pointer)
+	payload int
+	// zeroLimit: how "no limit" is spelt (0 no option; 1 WithLimit(0); 2 WithLimit(negative))
+	zeroLimit int
+	// runtimePanics: number of loaders that ended with a runtime error so far
+	runtimePanics int
+}
+
+func newCacheShared(t *simrt.Tape) *cacheShared {
+	sh := &cacheShared{}
+	if t.Chance(1, 3) {
+		sh.keyMode = t.Range(1, 2)
+	}
+	if t.Chance(1, 3) {
+		sh.payload = 1
+	}
+	if t.Chance(1, 3) {
+		sh.zeroLimit = t.Range(1, 2)
+	}
+	return sh
+}
+
+var cacheKeyNames = [3][]string{nil,
+	{"", "k", "k0", "k00", "K0"},
+	{strings.Repeat("p", 300) + "0", strings.Repeat("p", 300) + "1", "κλειδί-2", "k\x003", "a b\tc\n4"}}
+
+func (sh *cacheShared) key(k int) string {
+	if n := cacheKeyNames[sh.keyMode]; k < len(n) {
+		return n[k]
+	}
+	return fmt.Sprintf("k%d", k)
+}
+
+type cachePayload struct{ v int }
+
+func (sh *cacheShared) enc(v int) any {
+	if sh.payload == 0 {
+		return v
+	}
+	switch v % 5 {
+	case 1:
+		return fmt.Sprintf("v%d", v)
+	case 2:
+		return []int{v}
+	case 3:
+		return map[string]int{"v": v}
+	case 4:
+		return &cachePayload{v}
+	}
+	return v
+}
+
+func (sh *cacheShared) dec(x any) int {
+	switch p := x.(type) {
+	case int:
+		return p
+	case string:
+		var v int
+		if _, err := fmt.Sscanf(p, "v%d", &v); err == nil {
+			return v
+		}
+	case []int:
+		if len(p) == 1 {
+			return p[0]
+		}
+	case map[string]int:
+		if v, ok := p["v"]; ok && len(p) == 1 {
+			return v
+		}
+	case *cachePayload:
+		if p != nil {
+			return p.v
+		}
+	}
+	return -1
 }
 
 type cacheWorld struct {
@@ -63,7 +194,12 @@ type cacheWorld struct {
 	mine map[int]bool
 	// longest expiry of any store issued on this cache
 	maxExpire time.Duration
+	// peers: all caches of the run (index = id), for loaders that go to another cache
+	peers []*cacheWorld
+	nKeys int
 }
+
+func (w *cacheWorld) key(k int) string { return w.sh.key(k) }
 
 func (w *cacheWorld) tick() int64 { w.sh.clk++; return w.sh.clk }
 
@@ -72,8 +208,6 @@ func (w *cacheWorld) newVal() int {
 	w.mine[w.sh.nextVal] = true
 	return w.sh.nextVal
 }
-
-func key(k int) string { return fmt.Sprintf("k%d", k) }
 
 // flightSpy is a pass-through around the cache's barrier that records the
 // instant at which a Take enters it.  The yield stands for a preemption between
@@ -109,14 +243,21 @@ func (f *flightSpy) DoEx(key string, fn func() (any, error)) (any, bool, error) 
 	return f.inner.DoEx(key, fn)
 }
 
-func newCacheWorld(r *simrt.Run, limit int, expire time.Duration) *cacheWorld {
-	return newCacheWorldIn(r, &cacheShared{}, 0, limit, expire, "")
+func newCacheWorld(r *simrt.Run, sh *cacheShared, limit int, expire time.Duration) *cacheWorld {
+	return newCacheWorldIn(r, sh, 0, limit, expire, "")
 }
 
 func newCacheWorldIn(r *simrt.Run, sh *cacheShared, id, limit int, expire time.Duration, name string) *cacheWorld {
 	var opts []collection.CacheOption
-	if limit > 0 {
+	switch {
+	case limit > 0:
 		opts = append(opts, collection.WithLimit(limit))
+	case sh.zeroLimit == 1:
+		opts = append(opts, collection.WithLimit(0))
+		r.Probe("cache-unlimited-spelt-as-limit-zero-or-negative")
+	case sh.zeroLimit == 2:
+		opts = append(opts, collection.WithLimit(-3))
+		r.Probe("cache-unlimited-spelt-as-limit-zero-or-negative")
 	}
 	if name != "" {
 		opts = append(opts, collection.WithName(name))
@@ -151,19 +292,25 @@ func (w *cacheWorld) get(client, k int) {
 	in := cIn{kind: cGet, key: k, tCall: w.r.Elapsed()}
 	call := w.tick()
 	w.r.Ev("get", int64(client), int64(k))
-	v, ok := w.c.Get(key(k))
+	v, ok := w.c.Get(w.key(k))
 	ret := w.tick()
 	in.tRet = w.r.Elapsed()
 	out := cOut{ok: ok}
 	if ok {
-		out.val = v.(int)
+		out.val = w.sh.dec(v)
 	}
 	w.r.Ev("got", int64(out.val))
 	w.record(client, in, out, call, ret)
 }
 
-func (w *cacheWorld) set(client, k int, expire time.Duration) {
+func (w *cacheWorld) set(client, k int, expire time.Duration) int {
 	v := w.newVal()
+	w.setVal(client, k, expire, v)
+	return v
+}
+
+// setVal stores a given value (set: a value never used before).
+func (w *cacheWorld) setVal(client, k int, expire time.Duration, v int) {
 	if expire > w.maxExpire {
 		w.maxExpire = expire
 	}
@@ -172,10 +319,10 @@ func (w *cacheWorld) set(client, k int, expire time.Duration) {
 	w.r.Ev("set", int64(client), int64(k), int64(v), int64(expire))
 	if expire > 0 {
 		in.expire = expire
-		w.c.SetWithExpire(key(k), v, expire)
+		w.c.SetWithExpire(w.key(k), w.sh.enc(v), expire)
 	} else {
 		in.expire = w.expire
-		w.c.Set(key(k), v)
+		w.c.Set(w.key(k), w.sh.enc(v))
 	}
 	ret := w.tick()
 	in.tRet = w.r.Elapsed()
@@ -186,7 +333,7 @@ func (w *cacheWorld) del(client, k int) {
 	in := cIn{kind: cDel, key: k, tCall: w.r.Elapsed()}
 	call := w.tick()
 	w.r.Ev("del", int64(client), int64(k))
-	w.c.Del(key(k))
+	w.c.Del(w.key(k))
 	ret := w.tick()
 	in.tRet = w.r.Elapsed()
 	w.record(client, in, cOut{}, call, ret)
@@ -202,45 +349,145 @@ func (w *cacheWorld) length(client int) {
 	w.record(client, in, cOut{n: n}, call, ret)
 }
 
-func (w *cacheWorld) take(client, k int, fail bool, loadYields int, loadSleep time.Duration) {
+func (w *cacheWorld) take(client, k int, sp loadSpec) {
 	tr := &takeRec{client: client, key: k, tCall: w.r.Elapsed()}
 	w.takes = append(w.takes, tr)
 	tr.call = w.tick()
-	w.r.Ev("take", int64(client), int64(k))
+	w.r.Ev("take", int64(client), int64(k), int64(sp.errKind), int64(sp.panicKind))
 	tid := w.r.CurrentID()
+	prev := w.inTake[tid] // a Take issued by the loader of another Take of this task
 	w.inTake[tid] = tr
-	defer delete(w.inTake, tid)
-	v, err := w.c.Take(key(k), func() (any, error) {
-		l := &loadRec{key: k, start: w.tick(), tStart: w.r.Elapsed()}
-		tr.loads = append(tr.loads, l)
-		w.r.Ev("load", int64(client), int64(k))
-		yields(w.r, loadYields)
-		if loadSleep > 0 {
-			w.r.Sleep(loadSleep)
-		}
-		if fail {
-			l.err = fmt.Errorf("load-error-%d", l.start)
+	defer func() {
+		if prev != nil {
+			w.inTake[tid] = prev
 		} else {
-			l.val = w.newVal()
+			delete(w.inTake, tid)
 		}
-		l.tEnd = w.r.Elapsed()
-		l.end = w.tick()
-		if l.err != nil {
-			return nil, l.err
-		}
-		return l.val, nil
-	})
+	}()
+	var v any
+	var err error
+	func() {
+		defer func() {
+			if p := recover(); p != nil {
+				if !w.sh.ourPanic(p) {
+					panic(p)
+				}
+				tr.panicked = true
+			}
+		}()
+		v, err = w.c.Take(w.key(k), func() (any, error) {
+			l := &loadRec{key: k, start: w.tick(), tStart: w.r.Elapsed()}
+			tr.loads = append(tr.loads, l)
+			w.r.Ev("load", int64(client), int64(k))
+			yields(w.r, sp.yields)
+			if sp.sleep > 0 {
+				w.r.Sleep(sp.sleep)
+			}
+			if sp.nest != nil {
+				w.nested(client, k, *sp.nest)
+			}
+			switch {
+			case sp.panicKind > 0:
+				l.panicked = true
+			case sp.errKind > 0:
+				switch sp.errKind {
+				case 2:
+					l.err = context.DeadlineExceeded
+				case 3:
+					l.err = fmt.Errorf("load k%d #%d: %w", k, l.start, context.Canceled)
+				case 4:
+					l.err = loadFailure{l.start}
+				case 5:
+					l.err = collection.ErrArgument
+				default:
+					l.err = fmt.Errorf("load-error-%d", l.start)
+				}
+			default:
+				l.val = w.newVal()
+			}
+			l.tEnd = w.r.Elapsed()
+			l.end = w.tick()
+			switch sp.panicKind {
+			case 1:
+				w.r.Probe("cache-loader-panicked")
+				panic(fmt.Sprintf("load-panic-%d", l.start))
+			case 2:
+				w.r.Probe("cache-loader-panicked")
+				panic(fmt.Errorf("%w #%d", errLoadPanic, l.start))
+			case 3:
+				w.r.Probe("cache-loader-panicked")
+				w.sh.runtimePanics++
+				var m map[int]int
+				m[k] = 1
+			case 4:
+				w.r.Probe("cache-loader-panicked")
+				panic(loadPanic{l.start})
+			}
+			if l.err != nil {
+				if sp.errKind > 1 {
+					w.r.Probe("cache-loader-error-sentinel-wrapped-or-typed")
+				}
+				return nil, l.err
+			}
+			return w.sh.enc(l.val), nil
+		})
+	}()
 	tr.ret = w.tick()
 	tr.tRet = w.r.Elapsed()
 	tr.err = err
-	if err == nil {
-		if iv, ok := v.(int); ok {
-			tr.val = iv
-		} else {
-			tr.val = -1
-		}
+	if err == nil && !tr.panicked {
+		tr.val = w.sh.dec(v)
 	}
 	w.r.Ev("taken", int64(tr.val))
+}
+
+// ourPanic: is p a value one of the harness' loaders panicked with?
+func (sh *cacheShared) ourPanic(p any) bool {
+	switch x := p.(type) {
+	case loadPanic:
+		return true
+	case string:
+		return strings.HasPrefix(x, "load-panic-")
+	case runtime.Error:
+		return sh.runtimePanics > 0
+	case error:
+		return errors.Is(x, errLoadPanic)
+	}
+	return false
+}
+
+// nested runs the operation a loader issues itself while loading key k on cache w.  A nested
+// Take only goes "downwards" - to a cache with a larger index, or on the same cache to a larger
+// key - so that loaders never wait for each other in a cycle (that would be a deadlock of the
+// caller's own making); otherwise it is turned into a Get.
+func (w *cacheWorld) nested(client, k int, n nestSpec) {
+	tgt := w
+	if n.cache < len(w.peers) && w.peers[n.cache] != nil {
+		tgt = w.peers[n.cache]
+	}
+	key := n.key
+	if tgt.nKeys > 0 {
+		key %= tgt.nKeys
+	}
+	kind := n.kind
+	if kind == 3 && !(tgt.id > w.id || (tgt.id == w.id && key > k)) {
+		kind = 0
+	}
+	w.r.Probe("cache-loader-issues-cache-operation")
+	if tgt != w {
+		w.r.Probe("cache-loader-goes-to-another-cache")
+	}
+	switch kind {
+	case 0:
+		tgt.get(client, key)
+	case 1:
+		tgt.set(client, key, 0)
+	case 2:
+		tgt.del(client, key)
+	default:
+		w.r.Probe("cache-loader-issues-nested-take")
+		tgt.take(client, key, loadSpec{})
+	}
 }
 
 // history turns the recorded calls into model operations.  A Take that ran its
@@ -270,6 +517,18 @@ func (w *cacheWorld) history(loose bool) ([]cOp, bool) {
 			}
 			ops = append(ops, cOp{client: tr.client, call: from, ret: l.start, out: cOut{ok: false},
 				in: cIn{kind: cGet, key: tr.key, tCall: tFrom, tRet: l.tStart, fromLoader: true}})
+			if l.panicked {
+				// nothing was loaded: the call may pass the panic on or report an error, it cannot succeed
+				if !tr.panicked && tr.err == nil {
+					r.Fail("cache-take-result", "cache #%d: Take(k%d) returned (%v, nil) although its own loader panicked", w.id, tr.key, tr.val)
+					return nil, false
+				}
+				continue
+			}
+			if tr.panicked {
+				r.Fail("cache-take-result", "cache #%d: Take(k%d) panicked although its own loader returned normally", w.id, tr.key)
+				return nil, false
+			}
 			if l.err != nil {
 				if !errors.Is(tr.err, l.err) {
 					r.Fail("cache-take-result", "Take(k%d) returned (%v, %v) although its own loader failed with %v", tr.key, tr.val, tr.err, l.err)
@@ -290,13 +549,28 @@ func (w *cacheWorld) history(loose bool) ([]cOp, bool) {
 			if o == tr || o.key != tr.key || !overlap(o, tr) {
 				continue
 			}
-			if tr.err != nil {
+			if len(o.loads) == 1 && o.loads[0].panicked {
+				// the shared call panicked: its followers get an error (or the panic)
+				if tr.err != nil || tr.panicked {
+					shared = true
+					if !loose {
+						r.Probe("cache-take-shared-a-panicked-call")
+					}
+				}
+			} else if tr.err != nil {
 				if o.err != nil && errors.Is(tr.err, o.err) {
 					shared = true
 				}
-			} else if o.err == nil && o.val == tr.val {
+			} else if !tr.panicked && o.err == nil && !o.panicked && o.val == tr.val {
 				shared = true
 			}
+		}
+		if tr.panicked {
+			if !shared {
+				r.Fail("cache-take-result", "cache #%d: Take(k%d) panicked without running its loader and no overlapping Take of that key on this cache had a panicking loader", w.id, tr.key)
+				return nil, false
+			}
+			continue
 		}
 		if tr.err != nil {
 			if !shared {
@@ -334,6 +608,10 @@ const maxCacheVirtual = 3000 * time.Second
 
 func cacheSequential(r *simrt.Run, tier string) {
 	t := r.Tape
+	if t.Intn(6) == 5 {
+		cacheBulk(r, tier)
+		return
+	}
 	limit := t.Intn(5)
 	nKeys := t.Range(1, 5)
 	expire := cacheExpires[t.Intn(len(cacheExpires))]
@@ -342,13 +620,16 @@ func cacheSequential(r *simrt.Run, tier string) {
 		maxOps = 60
 	}
 	nOps := t.Range(1, maxOps)
+	sh := newCacheShared(t)
 	if t.Bool() {
 		r.Sleep(time.Duration(t.Range(1, 1999)) * time.Millisecond)
 	}
-	w := newCacheWorld(r, limit, expire)
+	w := newCacheWorld(r, sh, limit, expire)
 	if w == nil {
 		return
 	}
+	w.nKeys = nKeys
+	lastVal := make([]int, nKeys) // the value of the latest Set / SetWithExpire of each key (0: none yet)
 	type last struct {
 		at     time.Duration
 		expire time.Duration
@@ -413,31 +694,47 @@ func cacheSequential(r *simrt.Run, tier string) {
 		}
 		k := t.Intn(nKeys)
 		var what string
-		switch v := t.Intn(23); {
+		switch v := t.Intn(25); {
 		case v < 7:
 			w.get(0, k)
 			what = "Get"
 		case v < 12:
 			lastSet[k] = last{at: r.Elapsed(), expire: expire, set: true}
-			w.set(0, k, 0)
+			lastVal[k] = w.set(0, k, 0)
 			what = "Set"
+		case v >= 23:
+			// the value this key was set to last is set again (a refresh: same value, new life)
+			lastSet[k] = last{at: r.Elapsed(), expire: expire, set: true}
+			if lastVal[k] == 0 {
+				lastVal[k] = w.set(0, k, 0)
+				what = "Set"
+				break
+			}
+			e := time.Duration(0)
+			if v == 24 {
+				e = entryExpires[t.Intn(len(entryExpires))]
+				lastSet[k].expire = e
+			}
+			w.setVal(0, k, e, lastVal[k])
+			r.Probe("cache-same-value-set-again")
+			what = fmt.Sprintf("Set(same value %d again, expire %v)", lastVal[k], e)
 		case v < 14:
 			e := entryExpires[t.Intn(len(entryExpires))]
 			lastSet[k] = last{at: r.Elapsed(), expire: e, set: true}
-			w.set(0, k, e)
+			lastVal[k] = w.set(0, k, e)
 			what = fmt.Sprintf("SetWithExpire(%v)", e)
 		case v < 16:
 			w.del(0, k)
 			lastSet[k].set = false
 			what = "Del"
 		case v < 19:
-			fail := t.Chance(1, 5)
+			sp := drawLoad(t, nKeys, 1)
 			n := len(w.takes)
-			w.take(0, k, fail, 0, 0)
-			if len(w.takes[n].loads) > 0 && !fail {
+			w.take(0, k, sp)
+			if len(w.takes[n].loads) > 0 && sp.errKind == 0 && sp.panicKind == 0 {
 				lastSet[k] = last{at: r.Elapsed(), expire: expire, set: true}
 			}
-			what = fmt.Sprintf("Take(fail=%v)", fail)
+			what = fmt.Sprintf("Take(loader %v)", sp)
 		case v < 20:
 			w.length(0)
 			what = "Len"
@@ -500,7 +797,8 @@ func cacheSequential(r *simrt.Run, tier string) {
 	if r.Tracing() {
 		r.Logf("cache(sequential) limit=%d expire=%v keys=%d: %v", limit, expire, nKeys, script)
 	}
-	r.Sample(map[string]any{"component": "Cache(single client)", "limit": limit, "expire": expire.String(), "keys": nKeys, "ops": nOps, "virtual": r.Elapsed().String()})
+	r.Sample(map[string]any{"component": "Cache(single client)", "limit": limit, "expire": expire.String(), "keys": nKeys, "ops": nOps, "virtual": r.Elapsed().String(),
+		"key_spelling": sh.keyMode, "payload_types": sh.payload, "no_limit_spelling": sh.zeroLimit})
 	ops, ok := w.history(false)
 	if !ok {
 		return
@@ -559,9 +857,7 @@ type cachePlanOp struct {
 	key       int
 	think     time.Duration
 	expire    time.Duration // kind 1: > 0 = SetWithExpire
-	fail      bool
-	loadYield int
-	loadSleep time.Duration
+	load      loadSpec      // kind 3
 }
 
 func runCacheClients(r *simrt.Run, worlds []*cacheWorld, plans [][]cachePlanOp) bool {
@@ -582,7 +878,7 @@ func runCacheClients(r *simrt.Run, worlds []*cacheWorld, plans [][]cachePlanOp) 
 				case 2:
 					w.del(c, o.key)
 				case 3:
-					w.take(c, o.key, o.fail, o.loadYield, o.loadSleep)
+					w.take(c, o.key, o.load)
 				default:
 					w.length(c)
 				}
@@ -620,8 +916,8 @@ func allGoneAfterIdle(r *simrt.Run, worlds []*cacheWorld, nKeys int) bool {
 		var left []string
 		cls := ""
 		for k := 0; k < nKeys; k++ {
-			if v, ok := w.c.Get(key(k)); ok {
-				left = append(left, fmt.Sprintf("k%d=%v", k, v))
+			if v, ok := w.c.Get(w.key(k)); ok {
+				left = append(left, fmt.Sprintf("k%d=%v", k, w.sh.dec(v)))
 				if c := w.outlivesClass(k); cls == "" || c == outlivesClass {
 					cls = c
 				}
@@ -782,10 +1078,10 @@ func cacheConcurrent(r *simrt.Run, tier string) {
 				o.kind = 2
 			case v < 18:
 				o.kind = 3
-				o.fail = t.Chance(1, 5)
-				o.loadYield = t.Intn(3)
+				o.load = drawLoad(t, nKeys, 1)
+				o.load.yields = t.Intn(3)
 				if t.Chance(1, 3) {
-					o.loadSleep = time.Duration(t.Range(1, 1500)) * time.Millisecond
+					o.load.sleep = time.Duration(t.Range(1, 1500)) * time.Millisecond
 				}
 			default:
 				o.kind = 4
@@ -793,15 +1089,17 @@ func cacheConcurrent(r *simrt.Run, tier string) {
 			plans[c] = append(plans[c], o)
 		}
 	}
+	sh := newCacheShared(t)
 	if r.Tracing() {
 		r.Logf("cache(concurrent) clients=%d keys=%d limit=%d expire=%v plans=%+v", clients, nKeys, limit, expire, plans)
 	}
 	r.Sample(map[string]any{"component": "Cache(concurrent)", "clients": clients, "keys": nKeys, "limit": limit, "expire": expire.String(), "ops_per_client": perClient,
 		"first_client_plan": fmt.Sprintf("%+v", plans[0])})
-	w := newCacheWorld(r, limit, expire)
+	w := newCacheWorld(r, sh, limit, expire)
 	if w == nil {
 		return
 	}
+	w.nKeys = nKeys
 	if !runCacheClients(r, []*cacheWorld{w}, plans) {
 		return
 	}
@@ -845,12 +1143,12 @@ func cacheMulti(r *simrt.Run, tier string) {
 		for j := 0; j < perClient; j++ {
 			o := cachePlanOp{key: t.Intn(nKeys), cache: t.Intn(nCaches)}
 			if storm && j == 0 {
-				o = cachePlanOp{kind: 3, loadYield: t.Intn(4)}
+				o = cachePlanOp{kind: 3, load: loadSpec{yields: t.Intn(4)}}
 				if stormAcross {
 					o.cache = c % nCaches
 				}
 				if t.Bool() {
-					o.loadSleep = time.Duration(t.Range(1, 1500)) * time.Millisecond
+					o.load.sleep = time.Duration(t.Range(1, 1500)) * time.Millisecond
 				}
 				plans[c] = append(plans[c], o)
 				continue
@@ -868,10 +1166,10 @@ func cacheMulti(r *simrt.Run, tier string) {
 			switch v := t.Intn(20); {
 			case v < 10:
 				o.kind = 3
-				o.fail = t.Chance(1, 5)
-				o.loadYield = t.Intn(4)
+				o.load = drawLoad(t, nKeys, nCaches)
+				o.load.yields = t.Intn(4)
 				if t.Chance(1, 2) {
-					o.loadSleep = time.Duration(t.Range(1, 1500)) * time.Millisecond
+					o.load.sleep = time.Duration(t.Range(1, 1500)) * time.Millisecond
 				}
 			case v < 13:
 				o.kind = 0
@@ -893,7 +1191,7 @@ func cacheMulti(r *simrt.Run, tier string) {
 	}
 	r.Sample(map[string]any{"component": "Cache(several caches, concurrent)", "caches": nCaches, "distinct_names": named, "clients": clients, "keys": nKeys, "limit": limit,
 		"expire": expire.String(), "ops_per_client": perClient, "first_client_plan": fmt.Sprintf("%+v", plans[0])})
-	sh := &cacheShared{}
+	sh := newCacheShared(t)
 	var worlds []*cacheWorld
 	for i := 0; i < nCaches; i++ {
 		name := ""
@@ -904,7 +1202,11 @@ func cacheMulti(r *simrt.Run, tier string) {
 		if w == nil {
 			return
 		}
+		w.nKeys = nKeys
 		worlds = append(worlds, w)
+	}
+	for _, w := range worlds {
+		w.peers = worlds
 	}
 	if !runCacheClients(r, worlds, plans) {
 		return
